@@ -749,8 +749,10 @@ class Controller(object):
         # pred_reduction = - calculate_model_value(gopt, H, d)
         pred_reduction = - model_value(gopt, H, d)
         if self.h is not None:
-            # QUESTION: x+d here correct? rvec_list takes mean value
-            obj += self.h(remove_scaling(x+d, self.scaling_changes), *self.argsh) 
+            # h at the point where the residuals were evaluated: x+d brought back into the feasible region
+            # (x+d itself can lie outside the bounds, e.g. growing.perturb_trust_region_step)
+            xnew = self.model.as_absolute_coordinates(x + d - self.model.xbase)
+            obj += self.h(remove_scaling(xnew, self.scaling_changes), *self.argsh)
             # since m(0) = h(x)
             pred_reduction = self.h(remove_scaling(x, self.scaling_changes), *self.argsh) - model_value(gopt, H, d, x, self.h, self.argsh, self.scaling_changes)
         actual_reduction = self.model.objopt() - obj
